@@ -414,6 +414,16 @@ func runC10(c *rt.Ctx) {
 		c.Require("decorated-valid-text", 1500)
 	}
 	guardedInputs(c, "C10", "roman", []string{"MCMXCIV", "mmxxiv", "IV", "i", "MMMM", "xlii", "DCCCLXXXVIII", "IIII", "VX", "MCMXCIVx", "M", "MM", "MMM", "MMMMM", "MMMMMM", "MMMMMMM", "MMMMMMMM", "MMMMMMMMM", "ABC", "\xff"})
+	{
+		var steps []func(w *rt.W)
+		for _, t := range []string{"XIV", "xiv", "", "IIII", "MCMXCIV", "IIIII", "XVI"} {
+			for _, r := range []roman.Rule{0, roman.RuleDisableEmptyAsZero} {
+				t, r := t, r
+				steps = append(steps, func(w *rt.W) { c10Case(w, t, r) })
+			}
+		}
+		tripleHistories(c, steps)
+	}
 	c.Require("single-byte-substitution", 100000)
 	c.Require("around-limit", 100)
 }
